@@ -391,6 +391,23 @@ def r3(F, rep):
             if not mem:
                 rep.add("C12-R3", "freq-member|%s" % g.cls, g.loc(), "%s::replica_share_freq() does not return a member" % g.cls, False, func=g.q)
                 continue
+            # the member has a value whatever the configuration: set by every constructor (initialiser list or default
+            # member initialiser) or assigned in init() outside any configuration-dependent branch
+            for m in sorted(set(mem)):
+                ctors = [k for k in F.funcs.values() if k.cls == g.cls and k.ctor and "/src/" in k.file]
+                in_ctor = bool(ctors) and all(any(it.get("member") == m for it in k.inits) or
+                                              any(X.key(t, k) == "this." + m for w, t in lvalue_writes(k)) for k in ctors)
+                in_init = False
+                for u in F.funcs.values():
+                    if u.cls == g.cls and u.name == "init":
+                        for w, t in lvalue_writes(u):
+                            if X.key(t, u) == "this." + m and not [1 for cid, pol in u.cfg.real_guards(w)
+                                                                   if not _error_exit_guard(u, cid, pol)]:
+                                in_init = True
+                rep.add("C12-R3", "freq-member-initialised|%s" % g.cls, g.loc(), "%s::replica_share_freq() returns `%s`, which %s" % (
+                    g.cls, m, "every constructor initialises" if in_ctor else "init() assigns unconditionally" if in_init else
+                    "is assigned only under a configuration-dependent condition: indeterminate otherwise"), in_ctor or in_init,
+                    detail="calc_biases() compares it with 0 for every active bias to choose between the threaded and the serial schedule", func=g.q)
             ups = [u for u in F.funcs.values() if u.cls == g.cls and u.name == "update"]
             for u in ups:
                 for c in X.calls(u):
@@ -400,6 +417,34 @@ def r3(F, rep):
                         rep.add("C12-R3", "share-guard|%s" % g.cls, u.loc(c), "%s::update() calls replica_share() under a condition on %s" % (
                             g.cls, "/".join(sorted(set(mem)))), ok,
                             detail="otherwise the module would not know that this bias needs the main thread", func=u.q)
+
+
+def _error_exit_guard(f, cid, pol):
+    """the guard only excludes a branch that reports an error and returns."""
+    from .rules_c10 import is_error_call
+    blk = [b for b in f.cfg.blocks.values() if b.get("cond") == cid]
+    if not blk:
+        return False
+    other = blk[0]["s"][1 if pol else 0]
+    if other is None:
+        return True
+    seen, stack = set(), [other]
+    has_err = False
+    while stack:
+        b = stack.pop()
+        if b in seen or b is None:
+            continue
+        seen.add(b)
+        if len(seen) > 6:
+            return False
+        for nid in f.cfg.blocks[b]["e"]:
+            n = f.nodes.get(nid)
+            if n is not None and is_error_call(n):
+                has_err = True
+        for s2 in f.cfg.succ.get(b, ()):
+            if s2 is not None and s2 != f.cfg.exit:
+                stack.append(s2)
+    return has_err
 
 
 def cf_is_loop(f, cid):
